@@ -71,7 +71,12 @@ class MultiIndexConverter(Transformer):
                 X_inverse_transformed.coords[dim] = original_index
                 # Set indexes to original MultiIndexes
                 indexes = [idx for idx in original_index.indexes.keys() if idx != dim]
-                X_inverse_transformed = X_inverse_transformed.set_index({dim: indexes})
+                # The reference may carry a plain index (e.g. new data for transform
+                # without the MultiIndex the model was fitted with)
+                if indexes:
+                    X_inverse_transformed = X_inverse_transformed.set_index(
+                        {dim: indexes}
+                    )
 
         return X_inverse_transformed
 
